@@ -108,11 +108,11 @@ func (z *Input) Peek(pos int) byte {
 func (z *Input) PeekRune(pos int) (rune, int) {
 	// from unicode/utf8
 	c := z.Peek(pos)
-	if c < 0xC0 || len(z.buf)-1-z.pos < 2 {
+	if c < 0xC0 || len(z.buf)-1-z.pos-pos < 2 {
 		return rune(c), 1
-	} else if c < 0xE0 || len(z.buf)-1-z.pos < 3 {
+	} else if c < 0xE0 || len(z.buf)-1-z.pos-pos < 3 {
 		return rune(c&0x1F)<<6 | rune(z.Peek(pos+1)&0x3F), 2
-	} else if c < 0xF0 || len(z.buf)-1-z.pos < 4 {
+	} else if c < 0xF0 || len(z.buf)-1-z.pos-pos < 4 {
 		return rune(c&0x0F)<<12 | rune(z.Peek(pos+1)&0x3F)<<6 | rune(z.Peek(pos+2)&0x3F), 3
 	}
 	return rune(c&0x07)<<18 | rune(z.Peek(pos+1)&0x3F)<<12 | rune(z.Peek(pos+2)&0x3F)<<6 | rune(z.Peek(pos+3)&0x3F), 4
